@@ -102,6 +102,26 @@ pub fn judge_range_api(ctx: &Ctx, l: &mut Local, p: &Params, site: Site, start: 
         }
     }
     l.nontrivial += 1;
+    // short ranges additionally against per-day calls made alone in fresh processes: an entry must not
+    // depend on its position in the range (state carried from one date to the next inside the range API
+    // could also poison the in-process per-day reference above)
+    if (1..=12).contains(&span) && site.lat == 39.0 && p.round_seconds == RoundSeconds::None {
+        for (d, v) in &m {
+            let c = PtCase::new(p, site, *d);
+            match crate::c12::canonical(&c) {
+                Some(r) => {
+                    l.count("range_entries_compared_with_fresh_process_calls", 1);
+                    if r != *v {
+                        ctx.violation("range_value_equals_single_date_call_in_a_fresh_process", &format!("{}_{}", d, case.key()), case.to_value(), json!({"date": date_json(*d), "range_value": fmt_r(v), "alone": fmt_r(&r)}));
+                    }
+                }
+                None => {
+                    eprintln!("MACHINERY: no canonical result from the child process");
+                    std::process::exit(3);
+                }
+            }
+        }
+    }
 }
 
 pub fn explore(ctx: &Ctx) {
